@@ -521,6 +521,12 @@ func (r *Runner) apply(op Op) bool {
 		if r.tx == nil || r.txDirtyUnknown {
 			return false
 		}
+		if len(txfile.VerifAllocSnapshot(r.F).WALMapping) > 0 {
+			e.Probe("checkpoint_with_wal_entries")
+		}
+		if len(r.txPages) == 0 {
+			e.Probe("maintenance_tx")
+		}
 		if err := r.tx.CheckpointWAL(); err != nil {
 			e.Fail("C03", "checkpoint", "CheckpointWAL failed: %v", err)
 		}
@@ -566,6 +572,12 @@ func (r *Runner) apply(op Op) bool {
 			r.BeforeEnd()
 		}
 		r.keepLast()
+		for _, p := range r.txPages {
+			if p.flushed {
+				e.Probe("rollback_after_flush")
+				break
+			}
+		}
 		if op.K == "rollback" {
 			err = r.tx.Rollback()
 		} else {
